@@ -109,6 +109,33 @@ def setup_paths():
         raise RuntimeError('copulas imported from %s, expected %s' % (got, want))
 
 
+def rotate_sampling(seed, shard):
+    """Hypothesis' generation favours the first ("simplest") element of sampled_from - prefixes are extended with
+    minimal choices, and every run starts from the minimal example - so with ~50 cases per shard the first family /
+    class / option of every list got most of the cases (measured: GaussianUnivariate 72 cases, UniformUnivariate 3).
+    Each shard therefore sees every list rotated by a different offset (a pure function of seed, shard and the list itself),
+    which evens out the pooled distribution.  Only the generator is affected; cases, oracles and replays are not."""
+    import hypothesis.strategies as st
+
+    if getattr(st.sampled_from, '_verif_rotated', False):
+        return
+    import zlib
+
+    original = st.sampled_from
+
+    def sampled_from(elements, *a, **kw):
+        if isinstance(elements, (list, tuple)) and len(elements) > 1 and not a and not kw:
+            # the offset must not depend on how often a composite strategy was executed (that would make data
+            # generation inconsistent between runs of one test case): only on the content of the list
+            site = zlib.crc32(repr(list(elements)).encode()) % 7
+            r = (shard + seed + site) % len(elements)
+            elements = list(elements[r:]) + list(elements[:r])
+        return original(elements, *a, **kw)
+
+    sampled_from._verif_rotated = True
+    st.sampled_from = sampled_from
+
+
 def lib_frame(exc):
     """Innermost traceback frame inside the code under test: (file:function:line)."""
     tb = traceback.extract_tb(exc.__traceback__)
